@@ -8,6 +8,11 @@
 //!                                      O: outside the workspace, on disk; X: outside, not on disk
 //! hist: ["open", doc, text] | ["change", doc, text] | ["change0", doc] (empty contentChanges) | ["close", doc]
 //!       | ["save", doc] | ["trace"]            (text = a small integer naming the text `local t<k> = <k>`)
+//!       | ["reload"]   a `.emmyrc.json` changed event: the server reloads the workspace after its 2 s debounce
+//!       | ["hold"]     wait until that reload has taken its open-files snapshot and asks the client for its progress
+//!                      token (sent between the snapshot and the re-index), and keep the request unanswered
+//!       | ["release"]  answer the held request: the reload re-indexes and runs its version loop
+//!       | ["sleep", ms]
 //! obs : per doc  {"open": k|null, "vfs": k|null, "sym": [names]|null, "init_vfs": k|null}
 //!       text 0 is the on-disk content.
 #[path = "../memserver.rs"]
@@ -37,6 +42,8 @@ struct Ctx {
     pool_o: Vec<String>, // unused on-disk outside uris
     fresh: u64,
     next_id: i32,
+    holds_hit: u64,
+    holds_missed: u64,
 }
 
 fn start(args: &Args, need: usize) -> Ctx {
@@ -56,11 +63,12 @@ fn start(args: &Args, need: usize) -> Ctx {
             pool_o.push(path_to_uri(&q));
         }
     }
-    let mut srv = MemServer::start(&root, default_caps());
+    std::fs::write(root.join(".emmyrc.json"), "{\n  \"diagnostics\": {\"enable\": true}\n}\n").unwrap();
+    let mut srv = MemServer::start(&root, MemServer::reload_caps());
     assert!(srv.wait_ready(1), "server did not become ready");
     srv.drain(Duration::from_millis(300), Duration::from_secs(5));
     srv.take_inbox();
-    Ctx { srv, out_dir, pool_d, pool_o, fresh: 0, next_id: 10 }
+    Ctx { srv, out_dir, pool_d, pool_o, fresh: 0, next_id: 10, holds_hit: 0, holds_missed: 0 }
 }
 
 fn alloc_uri(cx: &mut Ctx, kind: &str) -> String {
@@ -121,11 +129,23 @@ fn state_of(p: &Value) -> (Value, Value) {
     (f(&p["open"]), f(&p["analysed"]))
 }
 
+fn observe(cx: &mut Ctx, uris: &[String], fin: &[Value], init: &[Value]) -> Vec<Value> {
+    let mut obs = Vec::new();
+    for (i, u) in uris.iter().enumerate() {
+        let (open, vfs) = fin.get(i).map(state_of).unwrap_or((Value::Null, Value::Null));
+        let (_, init_vfs) = init.get(i).map(state_of).unwrap_or((Value::Null, Value::Null));
+        let sym = symbols(cx, u);
+        obs.push(json!({"open": open, "vfs": vfs, "sym": sym, "init_vfs": init_vfs}));
+    }
+    obs
+}
+
 /// run one history on fresh uris; returns the observation list
 fn run_history(cx: &mut Ctx, docs: &[Value], hist: &[Value]) -> Vec<Value> {
     let uris: Vec<String> = docs.iter().map(|d| alloc_uri(cx, d["kind"].as_str().unwrap_or("V"))).collect();
     let init = probe(cx, &uris).unwrap_or_default();
     let mut version = 1;
+    let mut last_reload: Option<Instant> = None;
     for h in hist {
         let op = h[0].as_str().unwrap_or("");
         let u = h[1].as_u64().map(|i| uris[(i as usize) % uris.len()].clone());
@@ -136,8 +156,29 @@ fn run_history(cx: &mut Ctx, docs: &[Value], hist: &[Value]) -> Vec<Value> {
             "change0" => cx.srv.send_notif("textDocument/didChange", json!({"textDocument": {"uri": u.unwrap(), "version": version}, "contentChanges": []})),
             "close" => cx.srv.send_notif("textDocument/didClose", json!({"textDocument": {"uri": u.unwrap()}})),
             "save" => cx.srv.send_notif("textDocument/didSave", json!({"textDocument": {"uri": u.unwrap()}})),
+            "reload" => {
+                cx.srv.send_notif("workspace/didChangeWatchedFiles", json!({"changes": [{"uri": format!("{}/.emmyrc.json", cx.srv.root_uri), "type": 2}]}));
+                last_reload = Some(Instant::now());
+            }
+            "hold" => {
+                if cx.srv.hold(Duration::from_secs(10)) {
+                    cx.holds_hit += 1;
+                } else {
+                    cx.holds_missed += 1;
+                }
+            }
+            "release" => cx.srv.release(),
+            "sleep" => cx.srv.drain(Duration::from_millis(h[1].as_u64().unwrap_or(1)), Duration::from_millis(h[1].as_u64().unwrap_or(1))),
             _ => cx.srv.send_notif("$/setTrace", json!({"value": "off"})),
         }
+    }
+    cx.srv.release();
+    if let Some(t) = last_reload {
+        // the debounce (2 s), the reload itself and its version loop; then silence
+        while t.elapsed() < Duration::from_millis(2400) {
+            cx.srv.drain(Duration::from_millis(50), Duration::from_millis(50));
+        }
+        cx.srv.drain(Duration::from_millis(700), Duration::from_secs(20));
     }
     // quiescence: the probe is answered inline on the main loop, i.e. after every inline notification; spawned
     // notification tasks may still be running, so poll until two consecutive probes agree
@@ -160,12 +201,16 @@ fn run_history(cx: &mut Ctx, docs: &[Value], hist: &[Value]) -> Vec<Value> {
         last = Some(p);
         std::thread::sleep(Duration::from_millis(40));
     }
-    let mut obs = Vec::new();
-    for (i, u) in uris.iter().enumerate() {
-        let (open, vfs) = fin.get(i).map(state_of).unwrap_or((Value::Null, Value::Null));
-        let (_, init_vfs) = init.get(i).map(state_of).unwrap_or((Value::Null, Value::Null));
-        let sym = symbols(cx, u);
-        obs.push(json!({"open": open, "vfs": vfs, "sym": sym, "init_vfs": init_vfs}));
+    let mut obs = observe(cx, &uris, &fin, &init);
+    if last_reload.is_some() {
+        // the end of the reload's version loop is not observable: an observation that does not match yet is
+        // re-taken for up to 15 s (a loaded machine can delay the reload task); only a state that stays wrong counts
+        let t_obs = Instant::now();
+        while !violations(docs, hist, &obs).is_empty() && t_obs.elapsed() < Duration::from_secs(15) {
+            cx.srv.drain(Duration::from_millis(500), Duration::from_millis(500));
+            let p = probe(cx, &uris).unwrap_or_default();
+            obs = observe(cx, &uris, &p, &init);
+        }
     }
     // leave the documents closed so that later histories do not see open documents pile up
     for u in &uris {
@@ -242,9 +287,65 @@ fn gen_history(rng: &mut Rng) -> (Vec<Value>, Vec<Value>) {
     (docs, hist)
 }
 
+/// a history around a workspace reload: documents are opened, the reload is triggered, and while the client holds
+/// the reload's progress request back (i.e. between the reload's open-files snapshot and its re-index) more
+/// notifications arrive — mostly edits of ALREADY OPEN documents
+fn gen_reload_history(rng: &mut Rng) -> (Vec<Value>, Vec<Value>) {
+    let ndocs = 1 + rng.below(2);
+    let docs: Vec<Value> = (0..ndocs).map(|_| json!({"kind": if rng.chance(2, 3) { "V" } else { "D" }})).collect();
+    let mut hist = Vec::new();
+    let mut text = 0u64;
+    let mut opened = vec![false; ndocs];
+    for d in 0..ndocs {
+        if d == 0 || rng.chance(2, 3) {
+            text += 1;
+            hist.push(json!(["open", d, text]));
+            opened[d] = true;
+            if rng.chance(1, 3) {
+                text += 1;
+                hist.push(json!(["change", d, text]));
+            }
+        }
+    }
+    hist.push(json!(["reload"]));
+    let held = rng.chance(4, 5);
+    if held {
+        hist.push(json!(["hold"]));
+    } else {
+        hist.push(json!(["sleep", 1900 + rng.below(300)]));
+    }
+    for _ in 0..(1 + rng.below(3)) {
+        let d = rng.below(ndocs);
+        let roll = rng.below(10);
+        if opened[d] && roll < 7 {
+            text += 1;
+            hist.push(json!(["change", d, text]));
+        } else if opened[d] && roll < 8 {
+            hist.push(json!(["close", d]));
+            opened[d] = false;
+        } else {
+            text += 1;
+            hist.push(json!(["open", d, text]));
+            opened[d] = true;
+        }
+    }
+    if held {
+        hist.push(json!(["release"]));
+    }
+    if rng.chance(1, 3) {
+        let d = rng.below(ndocs);
+        if opened[d] {
+            text += 1;
+            hist.push(json!(["change", d, text]));
+        }
+    }
+    (docs, hist)
+}
+
 /// the property oracle (implementation only): last notification about each document decides
 fn violations(docs: &[Value], hist: &[Value], obs: &[Value]) -> Vec<(String, String)> {
     let mut out = Vec::new();
+    let with_reload = hist.iter().any(|h| h[0] == "reload");
     for (i, d) in docs.iter().enumerate() {
         let kind = d["kind"].as_str().unwrap_or("V");
         let ws = kind == "V" || kind == "D";
@@ -271,7 +372,7 @@ fn violations(docs: &[Value], hist: &[Value], obs: &[Value]) -> Vec<(String, Str
         }
         let Some((lop, lt)) = last else { continue };
         let o = &obs[i];
-        let chain = format!("{}-then-{}", prev.unwrap_or("start"), lop);
+        let chain = format!("{}-then-{}{}", prev.unwrap_or("start"), lop, if with_reload { "+reload" } else { "" });
         match lt {
             Some(t) => {
                 if o["open"].as_u64() != Some(t) {
@@ -349,7 +450,7 @@ fn main() {
             let search = args.cmd == "search";
             let corp = corpus(&args);
             let repeat_corpus = if search { args.usize("corpus-repeat", 5) } else { 1 };
-            let total = n + corp.len() * repeat_corpus;
+            let total = n + corp.iter().map(|c| if c.1.iter().any(|h| h[0] == "reload") { 1 } else { repeat_corpus }).sum::<usize>();
             let mut cx = start(&args, 24);
             let mut rng = Rng::new(seed ^ if search { 0x5EA2C7 } else { 0xC027 });
             let mut seen = HashSet::new();
@@ -358,21 +459,36 @@ fn main() {
             let mut kinds: BTreeMap<String, usize> = BTreeMap::new();
             let mut viol = 0usize;
             let mut cases = 0usize;
+            let mut ops_reload = 0usize;
             let max_viol = args.usize("max-viol", 40);
+            let n_reload = args.usize("reloads", 5);
+            let mut reloads_done = 0usize;
             let mut stopped_early = false;
             let mut sig_count: BTreeMap<String, usize> = BTreeMap::new();
             let mut queue: Vec<(Vec<Value>, Vec<Value>)> = Vec::new();
             for c in &corp {
-                for _ in 0..repeat_corpus {
+                // histories with a reload take seconds each: not repeated
+                let rep = if c.1.iter().any(|h| h[0] == "reload") { 1 } else { repeat_corpus };
+                for _ in 0..rep {
                     queue.push(c.clone());
                 }
             }
             while cases < total {
-                let (docs, hist) = if cases < queue.len() { queue[cases].clone() } else { gen_history(&mut rng) };
+                let (docs, hist) = if cases < queue.len() {
+                    queue[cases].clone()
+                } else if reloads_done < n_reload {
+                    reloads_done += 1;
+                    gen_reload_history(&mut rng)
+                } else {
+                    gen_history(&mut rng)
+                };
                 cases += 1;
                 let obs = run_history(&mut cx, &docs, &hist);
                 for h in &hist {
                     *ops.entry(h[0].as_str().unwrap_or("").to_string()).or_insert(0) += 1;
+                }
+                if hist.iter().any(|h| h[0] == "reload") {
+                    ops_reload += 1;
                 }
                 for d in &docs {
                     *kinds.entry(d["kind"].as_str().unwrap_or("").to_string()).or_insert(0) += 1;
@@ -390,7 +506,7 @@ fn main() {
                         // signature reproduces
                         let mut cur = hist.clone();
                         let mut i = 0;
-                        let mut budget = if *seen_sig <= 2 { 12 } else { 0 };
+                        let mut budget = if *seen_sig <= 2 && !hist.iter().any(|h| h[0] == "reload") { 12 } else { 0 };
                         while i < cur.len() && budget > 0 && cur.len() > 1 {
                             let mut cand = cur.clone();
                             cand.remove(i);
@@ -427,7 +543,7 @@ fn main() {
                     println!("{}", json!({"docs": docs, "hist": hist, "obs": obs}));
                 }
             }
-            println!("{}", json!({"summary": {"cases": cases, "distinct_nontrivial": distinct_nontrivial, "ops": ops, "doc_kinds": kinds, "violations": viol, "stopped_early_after_max_violations": stopped_early}}));
+            println!("{}", json!({"summary": {"cases": cases, "distinct_nontrivial": distinct_nontrivial, "ops": ops, "doc_kinds": kinds, "violations": viol, "stopped_early_after_max_violations": stopped_early, "reload_histories": ops_reload, "snapshot_window_holds_hit": cx.holds_hit, "snapshot_window_holds_missed": cx.holds_missed}}));
             std::io::stdout().flush().unwrap();
             std::process::exit(0);
         }
